@@ -106,6 +106,10 @@ RisStep ==
   /\ l' = l + 1
 
 \* ================================== Ed25519 ==========================================
+\* C13, binding of the batch coefficients: the coefficients drawn for two batches that differ in ANY input (a key, a
+\* message, R or S of one entry) must differ, they are non-zero 128-bit values, and a repeated call draws the same ones.
+\* The previous batch's coefficients are remembered in the register "__zs".
+ZsOK(zs) == \A i \in 1..Len(zs) : ~BIsZero(zs[i]) /\ BIsZero(SubSeq(zs[i], (LEN \div 2) + 1, LEN))
 SigOps == {"sig.keygen", "sig.from_keypair_bytes", "sig.sk_from_slice", "sig.sign", "sig.sign_expanded", "sig.sign_prehashed",
            "sig.verify", "sig.verify_batch"}
 SigJudge(e) ==
@@ -162,6 +166,9 @@ SigJudge(e) ==
            used == IF Has(e, "lens") /\ lensok THEN SubSeq(ents, 1, e.lens[1]) ELSE ents
        IN IF ~keysok THEN <<~o.key_ok, "bad key">>
           ELSE IF ~lensok THEN <<o.key_ok /\ ~o.ok /\ ~o.again, "length mismatch must be Err">>
+          ELSE IF Has(e, "bind") /\ o.zs # <<>> /\ "__zs" \in DOMAIN regs /\ ~(\A i \in 1..Len(o.zs) : i <= Len(regs["__zs"].zs) => o.zs[i] # regs["__zs"].zs[i])
+               THEN <<FALSE, "batch coefficients are not bound to the input that changed">>
+          ELSE IF o.zs # <<>> /\ ~(ZsOK(o.zs) /\ o.zs = o.zs_again) THEN <<FALSE, "batch coefficients zero / too wide / not deterministic">>
           ELSE IF BatchMustErr(used) THEN <<o.key_ok /\ ~o.ok /\ ~o.again, "must be Err">>
           ELSE IF BatchInDomain(used) THEN
                LET x == BatchAllValid(used) IN <<o.key_ok /\ o.ok = x /\ o.again = x, x>>
@@ -169,6 +176,9 @@ SigJudge(e) ==
   ELSE <<FALSE, "unknown">>
 SigStep ==
   /\ l <= Len(Rec) /\ Rec[l].op \in SigOps
-  /\ LET e == Rec[l]  j == SigJudge(e) IN Note(j[1], e, j[2])
-  /\ l' = l + 1 /\ UNCHANGED regs
+  /\ LET e == Rec[l]  j == SigJudge(e) IN
+       /\ Note(j[1], e, j[2])
+       /\ IF e.op = "sig.verify_batch" /\ NoPanic(e) /\ Has(e.obs, "zs") /\ e.obs.zs # <<>>
+          THEN SetReg("__zs", [t |-> "zs", zs |-> e.obs.zs]) ELSE UNCHANGED regs
+  /\ l' = l + 1
 =============================================================================
